@@ -1,11 +1,30 @@
 /-
   Property C15 — transient topic: each subscriber sees every item once, in order, then the end.
-  Property theorems only; helper lemmas in Babylon/Topic/Lemmas*.lean.
+  Property theorems only; the model is Babylon/Topic/Model.lean (one step = one atomic operation,
+  fence or futex call of transient_topic.hpp), the inductive invariant and its preservation are in
+  Babylon/Topic/{Inv,Frame,ExtStep,StepT,StepG,StepC,StepW,InvMain,Use,Progress}.lean.
+
+  All theorems quantify over `Reach c s`: every state reachable from a new topic through ANY
+  interleaving of any number of threads running publish / publish_n (any batch sizes, any callback
+  values), close, consume (any batch sizes), subscribe, clear, with spurious weak-CAS failures and
+  spurious futex returns, for any positive block size `c.bs` of the slot vector (so ranges straddle
+  blocks arbitrarily), under the client contract stated in Model.lean.
+
+  Memory model: the transition system interleaves atomic operations (SC).  The publication of item
+  payloads is additionally proved along happens-before edges only (`topic_publication`): the model's
+  ghost `hb` moves knowledge exclusively through the release fence / relaxed store / relaxed load /
+  acquire fence chain the source has (orders are the generated constants of Babylon.Gen.Topic, so a
+  weakened fence breaks `ordPubFence_releases` / `ordAcqFence_acquires` and with them this file).
+  Not proved: the wake-up handshake under a weak memory model (DESIGN's `topic_wake_view`); status
+  and waiter bit share one futex word accessed with mixed sizes, which is outside both the C++
+  model and Babylon.Core.MemView; `topic_no_lost_wakeup` is the SC statement.
 -/
-import Babylon.Topic.Model
+import Babylon.Topic.Progress
+import Babylon.Topic.Sched
 
 namespace Babylon.Properties.C15
 open Babylon.Topic Babylon.Gen.Topic Babylon.Core
+set_option linter.unusedVariables false
 
 /-! ### Generated obligations: the source still is what the model was written against -/
 
@@ -38,5 +57,199 @@ theorem gen_skel_wakeup :
 theorem gen_skel_wait :
     skel_wait_until_ready = Skel.wait_until_ready ∧ skel_wait_until_ready_slow = Skel.wait_until_ready_slow := by decide
 theorem gen_skel_consume : skel_consume = Skel.consume := by decide
+
+
+/-! ### The property -/
+
+/-- reachable states of the topic with block size `c.bs` -/
+abbrev Reach (c : Cfg) (s : State) : Prop := Reachable Init (Step c) s
+
+/-- **Concurrent publishers never share a slot.**  Every index below `_next_event_index` has been
+handed to exactly one `publish` call and none above (`claims` counts the hand-outs), and two publish
+calls in progress never have an index of their remaining ranges in common. -/
+theorem topic_slots_disjoint {c : Cfg} (hbs : 0 < c.bs) {s : State} (h : Reach c s) :
+    (∀ i, s.claims i = if i < s.next then 1 else 0) ∧
+    (s.clearing = false → ∀ t u i, (s.pc t).range i → (s.pc u).range i → t = u) :=
+  ⟨(inv_reachable hbs h).1, fun hk _ _ _ ht hu => (main_reachable hbs h hk).ranges_disjoint ht hu⟩
+
+/-- **Each subscriber sees every item once, in publication-index order.**  What thread `t`'s consumer
+has been handed since `subscribe()` is exactly the list of `(index, item)` for the indices
+`0, 1, …, base-1` in this order (`base` = its cursor), where `item i` is what the publisher's callback
+wrote into slot `i`; every slot below the cursor is filled, PUBLISHED, still holds that item, and is
+below `_next_event_index`. -/
+theorem topic_each_once_in_order {c : Cfg} (hbs : 0 < c.bs) {s : State} (h : Reach c s) (hk : s.clearing = false)
+    (t : Nat) :
+    s.got t = (List.range (base s t)).map (fun i => (i, s.item i)) ∧ base s t ≤ s.cur t ∧
+    ∀ i, i < s.cur t → s.filled i = true ∧ status (s.word i) = stPublished ∧ s.val i = s.item i ∧ i < s.next := by
+  have M := main_reachable hbs h hk
+  refine ⟨M.got t, M.basele t, fun i hi => ?_⟩
+  have hp := (M.cons t i hi).1
+  exact ⟨(M.pub i hp).1, hp, (M.pub i hp).2.1, (M.pub i hp).2.2.2⟩
+
+/-- The item recorded for a filled slot never changes until `clear()` (so "the item of index `i`" in
+`topic_each_once_in_order` is well defined), and a filled slot stays filled. -/
+theorem topic_item_stable {c : Cfg} (hbs : 0 < c.bs) {s s' : State} (h : Reach c s) (hst : Step c s s')
+    (hk : s.clearing = false) (hk' : s'.clearing = false) (i : Nat) (hf : s.filled i = true) :
+    s'.item i = s.item i ∧ s'.filled i = true := by
+  obtain ⟨a, hu⟩ := ustep_of_step hst
+  exact item_keep (main_reachable hbs h hk) hu hk' i hf
+
+/-- **The end marker comes exactly after all items.**  `consume(n)` blocks until it can return `n`
+items unless the topic is closed: if it returns fewer (`m < n`, including `m = 0`, the end marker),
+then `close()` was called, the consumer's cursor equals `_next_event_index`, and every index below it
+is PUBLISHED — with `topic_each_once_in_order`: the consumer has by then been handed every item ever
+published. -/
+theorem topic_end_marker_after_all_items {c : Cfg} (hbs : 0 < c.bs) {s : State} (h : Reach c s)
+    (hk : s.clearing = false) {t b e m : Nat} (hp : s.pc t = .kRet b e m) (hshort : b + m < e) :
+    s.closed = true ∧ s.cur t = s.next ∧ b + m = s.next ∧ ∀ i, i < s.next → status (s.word i) = stPublished := by
+  obtain ⟨h1, h2, h3, h4⟩ := (main_reachable hbs h hk).end_after_all hp hshort
+  exact ⟨h1, h3, h2, h4⟩
+
+/-- **No lost wake-up.**  Whenever a thread is blocked in `futex_wait` on slot `j`, either the slot is
+still INITIAL with the waiter bit set (the future status store keeps the bit and its `wakeup_waiters`
+will see it), or the waiter bit is set and some thread has stored the status and has yet to execute
+`wakeup_waiters` on `j`, or some thread has seen the waiter bit and is about to call futex-wake on `j`. -/
+theorem topic_no_lost_wakeup {c : Cfg} (hbs : 0 < c.bs) {s : State} (h : Reach c s) (hk : s.clearing = false)
+    {t b e j : Nat} (hp : s.pc t = .kSleep b e j) :
+    (status (s.word j) = stInitial ∧ waiterUnit ≤ s.word j) ∨
+    (waiterUnit ≤ s.word j ∧ ∃ w, (s.pc w).willLoad j) ∨
+    (∃ w, (s.pc w).loaded j) :=
+  (main_reachable hbs h hk).wake t b e j hp
+
+/-- **Nobody is stuck once everything is published and closed**: in a state where `close()` was
+called and no publish / close call is in progress, no thread is blocked in `futex_wait`. -/
+theorem topic_no_stuck {c : Cfg} (hbs : 0 < c.bs) {s : State} (h : Reach c s) (hk : s.clearing = false)
+    (hq : Quiet s) (t b e j : Nat) : s.pc t ≠ .kSleep b e j :=
+  (main_reachable hbs h hk).no_stuck hq t b e j
+
+/-- … and every `consume` call returns: in such a state a thread inside `consume` can always take its
+next step, and each of its steps keeps the state quiet, strictly decreases its `rank` (≤ 8 · batch
+size + 8) and leaves every other thread's rank unchanged — so under every schedule each consumer
+reaches the return of `consume` after at most `rank` steps of its own (then
+`topic_end_marker_after_all_items` / `topic_each_once_in_order` describe what it returns). -/
+theorem topic_consume_terminates {c : Cfg} (hbs : 0 < c.bs) {s : State} (h : Reach c s) (hk : s.clearing = false)
+    (hq : Quiet s) {t : Nat} (hc : (s.pc t).consuming = true) :
+    (∃ i s' l, stepThread c s t i = some (s', l)) ∧
+    ∀ i s' l, stepThread c s t i = some (s', l) →
+      Quiet s' ∧ rank s' t < rank s t ∧ ∀ u, u ≠ t → rank s' u = rank s u := by
+  have M := main_reachable hbs h hk
+  exact ⟨consume_enabled M hq hc, fun i s' l hs => consume_progress M hq hc (ustep_of_thread hs)⟩
+
+/-- **The publisher's writes are fully visible.**  When `consume` hands the range `[b, b + m)` to
+thread `t`, the publication (the callback's plain writes) of every slot of the range happens-before
+`t`'s current point — along the release-fence → relaxed-store → relaxed-load → acquire-fence edges of
+the source only — and the slot holds exactly the item written by its publisher. -/
+theorem topic_publication {c : Cfg} (hbs : 0 < c.bs) {s : State} (h : Reach c s) (hk : s.clearing = false)
+    {t b e m : Nat} (hp : s.pc t = .kRet b e m) (i : Nat) (hb : b ≤ i) (hm : i < b + m) :
+    s.hb.seen t i = true ∧ s.filled i = true ∧ s.val i = s.item i := by
+  have M := main_reachable hbs h hk
+  have T := M.tinv t
+  rw [hp] at T
+  have hi : i < s.cur t := by rw [T.1]; exact hm
+  have hc := M.cons t i hi
+  exact ⟨hc.2, (M.pub i hc.1).1, (M.pub i hc.1).2.1⟩
+
+/-- **After `clear()` the topic behaves like a new one**: the last step of `clear()` leads to an
+initial state (`Init`: index 0, every futex word 0, nothing closed / claimed / filled, every consumer
+gone; only the payload memory and the vector's capacity are kept — "后续publish可以复用这些对象").
+Since every theorem above is proved from an arbitrary `Init` state, it holds verbatim for the cycle
+after the `clear()`. -/
+theorem topic_clear_eq_new {c : Cfg} (hbs : 0 < c.bs) {s s' : State} (h : Reach c s) {t : Nat} {i : Inp} {l : Act}
+    (hp : s.pc t = .rNext) (hs : stepThread c s t i = some (s', l)) : Init s' := by
+  have := clear_fresh hbs h hp
+  unfold stepThread at hs
+  rw [hp] at hs
+  simp only [Option.some.injEq, Prod.mk.injEq] at hs
+  rw [← hs.1]; exact this
+
+/-! ### Non-vacuity: concrete executions with block size 2 (ranges straddle blocks) -/
+
+/-- publisher 0 publishes a batch of 3 (two block pieces); consumer 1 started first and sleeps on slot 0,
+is woken, takes 2 items; `close()`; consumer 1 asks for 2 more, gets 1 (short range = end marker);
+then `clear()` runs up to its last step. -/
+def demo1 : List Move :=
+  [.subscribe 1, .consume 1 2,
+   .act 1 false [], .act 1 false [], .act 1 false [],      -- is_closed, is_published, wait_until_ready load
+   .act 1 false [], .act 1 false [],                       -- CAS sets the waiter bit, futex_wait sleeps
+   .publish 0 3, .act 0 false [],                          -- fetch_add
+   .act 0 false [70, 71]]                                  -- callback on the first piece [0, 2)
+
+def demoSleep : List Move := demo1
+
+def demo2 : List Move := demo1 ++
+  [.act 0 false [], .act 0 false [], .act 0 false [], .act 0 false [],   -- release fence, 2 stores, seq_cst fence
+   .act 0 false [], .act 0 false [], .act 0 false [],                    -- load (waiter bit seen), CAS, futex wake
+   .act 0 false [],                                                      -- wakeup_waiters on slot 1 (no waiter)
+   .act 0 false [72], .act 0 false [], .act 0 false [], .act 0 false [], .act 0 false [],  -- second piece [2, 3)
+   .act 1 false [], .act 1 false [],                                     -- woken, reload
+   .act 1 false [], .act 1 false [], .act 1 false [], .act 1 false [],   -- slots 0 and 1: is_closed, is_published
+   .act 1 false []]                                                      -- acquire fence
+
+example : ((run ⟨2⟩ 2 (State.fresh (fun _ => 0) 0 (fun _ => 0)) demo2).map
+    (fun s => decide (s.pc 1 = .kRet 0 2 2 ∧ s.val 0 = 70 ∧ s.val 1 = 71 ∧ s.next = 3 ∧ s.cap = 4))) = some true := by
+  decide
+
+example : ∃ s, Reach ⟨2⟩ s ∧ s.clearing = false ∧ s.pc 1 = .kSleep 0 2 0 := by
+  cases hs : run ⟨2⟩ 2 (State.fresh (fun _ => 0) 0 (fun _ => 0)) demoSleep with
+  | none => exact absurd hs (by decide)
+  | some s =>
+    have hr : Reach ⟨2⟩ s := run_reachable demoSleep _ _ (Reachable.base ⟨_, _, _, rfl⟩) (fun _ _ => rfl) hs
+    have : (run ⟨2⟩ 2 (State.fresh (fun _ => 0) 0 (fun _ => 0)) demoSleep).map
+        (fun s => decide (s.clearing = false ∧ s.pc 1 = .kSleep 0 2 0)) = some true := by decide
+    rw [hs] at this
+    exact ⟨s, hr, by simpa using this⟩
+
+example : ∃ s, Reach ⟨2⟩ s ∧ s.clearing = false ∧ s.pc 1 = .kRet 0 2 2 ∧ s.val 0 = 70 ∧ s.val 1 = 71 := by
+  cases hs : run ⟨2⟩ 2 (State.fresh (fun _ => 0) 0 (fun _ => 0)) demo2 with
+  | none => exact absurd hs (by decide)
+  | some s =>
+    have hr : Reach ⟨2⟩ s := run_reachable demo2 _ _ (Reachable.base ⟨_, _, _, rfl⟩) (fun _ _ => rfl) hs
+    have : (run ⟨2⟩ 2 (State.fresh (fun _ => 0) 0 (fun _ => 0)) demo2).map
+        (fun s => decide (s.clearing = false ∧ s.pc 1 = .kRet 0 2 2 ∧ s.val 0 = 70 ∧ s.val 1 = 71)) = some true := by decide
+    rw [hs] at this
+    exact ⟨s, hr, by simpa using this⟩
+
+/-- … close, the short range, quiet state, clear up to its last step -/
+def demo3 : List Move := demo2 ++
+  [.ret 1, .close 0, .act 0 false [], .act 0 false [], .act 0 false [], .act 0 false [],   -- close: load, store, fence, load
+   .consume 1 2,
+   .act 1 false [], .act 1 false [],                 -- slot 2: is_closed, is_published
+   .act 1 false [],                                  -- slot 3: is_closed sees CLOSED
+   .act 1 false []]                                  -- acquire fence: returns 1 item < 2
+
+example : ∃ s, Reach ⟨2⟩ s ∧ s.clearing = false ∧ Quiet s ∧ s.pc 1 = .kRet 2 4 1 ∧ s.val 2 = 72 ∧
+    s.got 1 = [(0, 70), (1, 71)] := by
+  cases hs : run ⟨2⟩ 2 (State.fresh (fun _ => 0) 0 (fun _ => 0)) demo3 with
+  | none => exact absurd hs (by decide)
+  | some s =>
+    have hr : Reach ⟨2⟩ s := run_reachable demo3 _ _ (Reachable.base ⟨_, _, _, rfl⟩) (fun _ _ => rfl) hs
+    have hb : Bounded 2 s := run_bounded demo3 _ _ (fun _ _ => rfl) hs
+    have : (run ⟨2⟩ 2 (State.fresh (fun _ => 0) 0 (fun _ => 0)) demo3).map
+        (fun s => decide (s.clearing = false ∧ s.closed = true ∧ s.pc 0 = .idle ∧ s.pc 1 = .kRet 2 4 1 ∧ s.val 2 = 72 ∧
+          s.got 1 = [(0, 70), (1, 71)])) = some true := by decide
+    rw [hs] at this
+    simp only [Option.map_some, Option.some.injEq, decide_eq_true_eq] at this
+    obtain ⟨h1, h2, h3, h4, h5, h6⟩ := this
+    refine ⟨s, hr, h1, ⟨h2, fun u => ?_⟩, h4, h5, h6⟩
+    by_cases h0 : u = 0
+    · subst h0; rw [h3]; exact ⟨rfl, id⟩
+    · by_cases h1' : u = 1
+      · subst h1'; rw [h4]; exact ⟨rfl, id⟩
+      · rw [hb u (by omega)]; exact ⟨rfl, id⟩
+
+/-- … the consumer takes the range, `clear()` runs up to its last step (4 slots reset) -/
+def demo4 : List Move := demo3 ++ [.ret 1, .clear 0, .act 0 false [], .act 0 false [], .act 0 false [], .act 0 false []]
+
+example : ∃ s, Reach ⟨2⟩ s ∧ s.clearing = true ∧ s.pc 0 = .rNext ∧ s.next = 3 ∧
+    s.got 1 = [(0, 70), (1, 71), (2, 72)] := by
+  cases hs : run ⟨2⟩ 2 (State.fresh (fun _ => 0) 0 (fun _ => 0)) demo4 with
+  | none => exact absurd hs (by decide)
+  | some s =>
+    have hr : Reach ⟨2⟩ s := run_reachable demo4 _ _ (Reachable.base ⟨_, _, _, rfl⟩) (fun _ _ => rfl) hs
+    have : (run ⟨2⟩ 2 (State.fresh (fun _ => 0) 0 (fun _ => 0)) demo4).map
+        (fun s => decide (s.clearing = true ∧ s.pc 0 = .rNext ∧ s.next = 3 ∧ s.got 1 = [(0, 70), (1, 71), (2, 72)])) = some true := by
+      decide
+    rw [hs] at this
+    exact ⟨s, hr, by simpa using this⟩
 
 end Babylon.Properties.C15
